@@ -1,7 +1,7 @@
 use super::*;
 use crate::error::Qcow2Result;
 use crate::helpers::IntAlignment;
-use crate::meta::{Mapping, MappingSource, Table, TableEntry};
+use crate::meta::{Mapping, MappingSource, SplitGuestOffset, Table, TableEntry};
 use futures_locks::RwLock as AsyncRwLock;
 use std::collections::HashMap;
 use std::ops::RangeInclusive;
@@ -283,11 +283,28 @@ impl<T: Qcow2IoOps> Qcow2Dev<T> {
     async fn check_mapping(&self) -> Qcow2Result<()> {
         let info = &self.info;
         let end = info.virtual_size();
+        let cluster_size = info.cluster_size() as u64;
+        let l2_span = (info.l2_entries() as u64) << info.cluster_bits();
+        let mut start = 0;
 
-        for start in (0..end).step_by(info.cluster_size()) {
+        while start < end {
+            // nothing is mapped where there is no l2 table: the walk follows
+            // the allocated tables, not the virtual size
+            if start % l2_span == 0 {
+                let split = SplitGuestOffset(start);
+                if self.get_l1_entry(&split).await?.is_zero() {
+                    start = match start.checked_add(l2_span) {
+                        Some(next) => next,
+                        None => break,
+                    };
+                    continue;
+                }
+            }
+
             let mapping = self.get_mapping(start).await?;
 
             self.check_single_mapping(start, mapping).await?;
+            start += cluster_size;
         }
         Ok(())
     }
